@@ -566,17 +566,20 @@ func check(id, tier string) int {
 		"build_s":             buildS,
 		"explore_s":           exploreS,
 		"components": map[string]interface{}{
-			"real_instrumented":   []string{"engine", "engine/pool", "engine/pubsub", "interpreter", "scope", "parser (without lexer.go)", "util", "stdlib", "config"},
-			"real_uninstrumented": []string{"github.com/krotik/common", "parser/lexer.go (lexer goroutine)", "Go runtime and standard library"},
-			"simulated":           []string{"goroutine scheduling", "sync.Mutex/RWMutex/Cond/WaitGroup/Once", "time.Sleep/Now", "math/rand top-level functions", "map iteration order"},
+			"real_instrumented":   []string{"engine", "engine/pool", "engine/pubsub", "interpreter", "scope", "parser (incl. lexer.go)", "util", "stdlib", "config"},
+			"real_uninstrumented": []string{"github.com/krotik/common", "stdlib/stdlib_gen.go (generated binding table)", "Go runtime and standard library"},
+			"simulated":           []string{"goroutine scheduling (incl. the lexer goroutine)", "sync.Mutex/RWMutex/Cond/WaitGroup/Once", "channel send/receive/close/range", "sync/atomic functions (real values, simulated ordering)", "time.Sleep/Now", "math/rand top-level functions", "map iteration order", "package-level state (snapshot/restore between runs)"},
 			"stubbed":             []string{"timeutil.Cron (stopped)", "telnet debug server / console (HandleInput driven directly)", "file import locator (memory locator)", "stdout/stderr loggers (memory logger)"},
 		},
 	}
 	if p.engine == engBubble {
 		cov["components"] = map[string]interface{}{
-			"real":      []string{"parser (lexer goroutine, parser)", "Go runtime and standard library"},
-			"simulated": []string{"goroutine quiescence detection by testing/synctest"},
-			"stubbed":   []string{},
+			"bubble_engine": map[string]interface{}{
+				"real":      []string{"parser (lexer goroutine, parser), pretty printer, interpreter validation - uninstrumented", "Go runtime and standard library"},
+				"simulated": []string{"goroutine quiescence detection and fake clock of testing/synctest"},
+				"stubbed":   []string{"timeutil.Cron (stopped)"},
+			},
+			"scheduler_engine": cov["components"],
 		}
 	}
 	ev := map[string]interface{}{
